@@ -403,6 +403,53 @@ def handle (j : Json) : Except String Json := do
           | .error er => [errJ er]
           | .ok st' => views st' :: goM st' t
       pure (Json.mkObj [("trace", jArr (goM St.init ops)), ("initial", views St.init)])
+  | "world" =>
+    -- construction interleaved with selection: after every step, the configuration every formula made so far
+    -- shows and the member every catalog made so far shows
+    let decl ← (← getArr j "decl").toList.mapM fun d => do
+      let a ← asArr d
+      match a.toList with
+      | [n, sp] => pure (⟨nm (← asStr n), (← strList sp).map nm⟩ : Controller)
+      | _ => throw "bad-op"
+    let cfgOf (s : String) : Except String Config :=
+      match fromString (nm s) with
+      | .ok c => pure c
+      | .error _ => throw "bad-op"
+    let ctrlOf (o : Json) : Except String Controller := do
+      pure ⟨nm (← getStr o "name"), (← strList (← o.getObjVal? "specs")).map nm⟩
+    let parse (w : World) (o : Json) : Except String WOp := do
+      match (← getStr o "e") with
+      | "newcat" => pure (WOp.newCatalog (nm (← getStr o "name")) (nm (← getStr o "ctrl")) ((← strList (← o.getObjVal? "names")).map nm))
+      | "newformula" => pure (WOp.newFormula (← exprOf (← o.getObjVal? "expr")))
+      | "select" => pure (WOp.op (MOp.select (← getNat o "f") (← cfgOf (← getStr o "id"))))
+      | "setctrl" => pure (WOp.op (MOp.setCtrl (← getNat o "f") (nm (← getStr o "name")) (← getInt o "index")))
+      | "apply" =>
+        let f ← getNat o "f"
+        match w.fs[f]? with
+        | none => throw "bad-op"
+        | some sp =>
+          match lookupOp (prepareOperators sp) (nm (← getStr o "key")) with
+          | some op => pure (WOp.op (MOp.apply f op (← cfgOf (← getStr o "id")) (← getInt o "step") (← natList (← o.getObjVal? "choices"))))
+          | none => throw "bad-op"
+      | "index" => pure (WOp.op (MOp.directIndex (← ctrlOf o) (← getInt o "index")))
+      | "name" => pure (WOp.op (MOp.directName (← ctrlOf o) (nm (← getStr o "v"))))
+      | "modify" => pure (WOp.op (MOp.directModify (← ctrlOf o) (← getInt o "step") (← getBool o "circular")))
+      | _ => throw "bad-op"
+    let report (w : World) : Json := Json.mkObj [
+      ("views", jArr (w.fs.map fun sp => match getConfiguration sp w.st with
+        | .error er => errJ er
+        | .ok c => jStr (sn (stringId c)))),
+      ("shown", jStrs (w.cats.map fun x => sn (shownName w.st x.2.1 x.2.2)))]
+    let rec goW (fuel : Nat) (w : World) (l : List Json) : Except String (List Json) := do
+      match fuel, l with
+      | 0, _ => pure []
+      | _, [] => pure []
+      | fuel + 1, o :: t =>
+        match stepW decl w (← parse w o) with
+        | .error er => pure [Json.mkObj [("err", jStr er.tag)]]
+        | .ok w' => pure (report w' :: (← goW fuel w' t))
+    let ops := (← getArr j "ops").toList
+    pure (Json.mkObj [("trace", jArr (← goW (ops.length + 1) ⟨St.init, [], []⟩ ops))])
   | _ => throw "bad-op"
 
 def main : IO Unit := Drv.run handle
